@@ -1,8 +1,11 @@
 /-
 Vocabulary of C08 (behaviour depends on the byte stream, not on how it is cut into input calls):
 what is compared, and the hypotheses on the stream under which the statement is proved.
+The theorems about the vocabulary (`NoQuotes s → QuotesLineLocal s`, `quotesLineLocalB s = true ↔ QuotesLineLocal s`,
+the `Decidable` instance) are in Lemmas/ChunkingQuote.lean.
 -/
 import ScpiVerif.Model.Ctx
+import ScpiVerif.Spec.Tokens
 
 namespace ScpiVerif.Props.C08
 open ScpiVerif ScpiVerif.Ctx ScpiVerif.Lexer
@@ -15,6 +18,38 @@ def Observable (c : Ctx) : List Ev × Bytes × Nat × List Regs.Reg × Fifo.Spec
    c.out.written, c.out.flushes, c.regs.regs, Fifo.EQ.abs c.eq, c.buf.take c.position)
 
 def NoQuotes (s : Bytes) : Prop := ∀ b ∈ s, b ≠ 34 ∧ b ≠ 39
+
+/-- a blank or a comma: the byte directly in front of a program data element
+(`<header> <blank> <data> , <data> …`), the only places where the library looks for a string -/
+def isSep (b : UInt8) : Bool := isWs b || b == 44
+
+/-- position `p` of `s` comes directly after a blank or a comma -/
+def SepBefore (s : Bytes) (p : Nat) : Prop := 0 < p ∧ ∃ b, s[p - 1]? = some b ∧ isSep b = true
+
+/-- no quoted string contains a line terminator: no word of the string language `"…"` / `'…'` of the token
+specification (`Spec.quoted`: quote, then 7-bit characters other than the quote or doubled quotes, then the
+quote) that occurs in `s` directly after a blank or a comma contains LF or CR.  Quote characters elsewhere
+(in a header, directly behind other data) are not restricted, and an unterminated quote is allowed.
+Implied by `NoQuotes`; decidable (`quotesLineLocalB`); `TXT "a;b",'c'<LF>` satisfies it, the stream of
+`chunking_counterexample` (`TXT "a<LF>b"<LF>`) does not.
+
+(Why not simply "every quote is followed by the same quote before the next line terminator": the last quote
+of a line never is, so that predicate only holds of streams without quotes.  Why "after a blank or a comma"
+and not a left-to-right pairing of quotes: the message scan of `SCPI_Input` resynchronises bytewise after an
+invalid byte, so a quote character in a header position shifts what the scan takes for a string
+(`A"B "x<LF>y" "<LF>` pairs up line by line, yet `"x<LF>y"` is a string token).) -/
+def QuotesLineLocal (s : Bytes) : Prop :=
+  ∀ p n q, (q = 34 ∨ q = 39) → SepBefore s p → (Spec.quoted q).accepts ((s.drop p).take n) = true →
+    ∀ b ∈ (s.drop p).take n, b ≠ 10 ∧ b ≠ 13
+
+def sepBeforeB (s : Bytes) (p : Nat) : Bool :=
+  decide (0 < p) && (match s[p - 1]? with | some b => isSep b | none => false)
+
+/-- `QuotesLineLocal` as a computation (`Lemmas.Chunking.quotesLineLocalB_iff`) -/
+def quotesLineLocalB (s : Bytes) : Bool :=
+  (List.range (s.length + 1)).all fun p => !sepBeforeB s p ||
+    (List.range (s.length + 1)).all fun n => [34, 39].all fun q =>
+      !(Spec.quoted q).accepts ((s.drop p).take n) || ((s.drop p).take n).all (fun b => b != 10 && b != 13)
 
 /-- the stream never leaves more unterminated data pending than the input buffer holds -/
 def Fits (c : Ctx) (n : Nat) : Prop := c.position + n + 1 ≤ c.bufLen
